@@ -161,6 +161,12 @@ def main(tier):
                 # only findings that depend on the native code generator can differ between configurations
                 if attr and not attr.startswith(("F05", "F06", "F07", "F09")):
                     attr = None
+            if attr is None and r["status"] != "ok" and not is_hist and not is_ill:
+                # the process died under a panic of the native code generator (it cannot unwind through native frames):
+                # same root causes as the panics C01 attributes from a unit's panic record
+                tail = r.get("stderr_tail", "")
+                if "couldn't match the name for the op code" in tail:
+                    attr = "F06 (module mode) native code generator panics on + - * / < <= > >= applied to an unsupported number of operands"
             if attr is None and mode == "module" and sw == "jit" and ("succeeds" in kind or "void" in kind or "raises" in kind or "effects" in kind):
                 # baseline (JIT off) raises, the JIT configuration goes on: the error is lost in native code
                 if b and any(x[0] == "err" for x in b) and all(x[0] == "ok" for x in o if isinstance(x, tuple)):
